@@ -1,0 +1,76 @@
+// Verification contracts (comment-only, compiled only with the "verif" build tag; read by /verif/govc).
+
+//go:build verif
+// +build verif
+
+package math
+
+// Contracts for the 256-bit helpers of the EVM (big.go) — property C15.
+//
+// The package-level limit values are ordinary mutable *big.Int variables. That they hold the values their names say
+// is an invariant established by package initialisation (BigPow) and preserved because nobody writes through them;
+// the C15 contracts carry it explicitly: it is a precondition of U256/S256 and of every opcode, and every opcode
+// proves that it still holds on return (no opcode writes through a limit value, see c15Own in core/vm).
+//@ spec func c15MathConsts() bool =
+//@     tt255 != nil && tt256 != nil && tt256m1 != nil &&
+//@     big(tt255) == 2^255 && big(tt256) == 2^256 && big(tt256m1) == 2^256 - 1
+
+// p is none of the limit values (so writing big(p) keeps c15MathConsts).
+//@ spec func c15NotMathConst(p: *big.Int) bool = p != tt255 && p != tt256 && p != tt256m1
+
+// Two's complement reading of a 256-bit word (Yellow Paper: signed interpretation).
+//@ spec func c15Sgn(v: int) int = if v < 2^255 then v else v - 2^256
+
+// U256: x := x mod 2^256, in place; returns x.
+//@ func U256 props C15
+//@ panics none
+//@ requires x != nil && c15MathConsts() && c15NotMathConst(x)
+//@ modifies big(x)
+//@ ensures [wrap] big(x) == old(big(x)) % 2^256
+//@ ensures [same-object] result == x
+//@ ensures [consts] c15MathConsts()
+
+// S256: two's complement reading; x itself when below 2^255, else a new object; x is never written.
+//@ func S256 props C15
+//@ panics none
+//@ requires x != nil && c15MathConsts()
+//@ modifies nothing
+//@ ensures [nonneg] old(big(x)) < 2^255 ==> result == x
+//@ ensures [neg] old(big(x)) >= 2^255 ==> fresh(result) && big(result) == old(big(x)) - 2^256
+//@ ensures [value] result != nil && big(result) == c15Sgn(old(big(x)))
+//@ ensures [x-unchanged] big(x) == old(big(x))
+//@ ensures [consts] c15MathConsts()
+
+// Byte: some byte of bigint; reads only. (Which byte — word-level indexing into big.Int.Bits() — is not decided.)
+//@ func Byte props C15
+//@ panics none
+//@ requires bigint != nil && 0 <= n && 0 <= padlength && padlength <= 2^31
+//@ modifies nothing
+//@ ensures [byte] 0 <= result && result < 256
+
+// Exp: a NEW integer holding a 256-bit word; base is squared in place (destroyed), exponent is only read.
+// That the word is base^exponent mod 2^256 needs reasoning about the square-and-multiply loop: not decided.
+//@ func Exp props C15
+//@ panics none
+//@ requires base != nil && exponent != nil && c15MathConsts() && c15NotMathConst(base)
+//@ modifies big(base)
+//@ ensures [fresh] fresh(result) && result != nil
+//@ ensures [word] 0 <= big(result) && big(result) < 2^256
+//@ ensures [consts] c15MathConsts()
+//@ loop rangeindex invariant [idx] -1 <= rangeindex && rangeindex < 2^63 - 1
+//@ loop rangeindex invariant [res] result != nil && result != base && result >= old(alloc()) && result < alloc()
+//@ loop rangeindex invariant [word] 0 <= big(result) && big(result) < 2^256
+//@ loop rangeindex invariant [consts] c15MathConsts()
+//@ loop rangeindex invariant [frame] forall r: *big.Int :: r != base && r < old(alloc()) ==> big(r) == old(big(r))
+//@ loop i invariant [res] result != nil && result != base && result >= old(alloc()) && result < alloc()
+//@ loop i invariant [word] 0 <= big(result) && big(result) < 2^256
+//@ loop i invariant [consts] c15MathConsts()
+//@ loop i invariant [frame] forall r: *big.Int :: r != base && r < old(alloc()) ==> big(r) == old(big(r))
+
+// ReadBits: writes bytes of buf only (which bytes: the big-endian image of |bigint| — not decided).
+//@ func ReadBits props C15
+//@ requires bigint != nil
+//@ modifies elems(buf)
+//@ loop rangeindex invariant [idx] -1 <= rangeindex && rangeindex < 2^63 - 1
+//@ loop rangeindex invariant [frame] forall r: *[1]byte :: r != base(buf) ==> elems(r) == old(elems(r))
+//@ loop j invariant [frame] forall r: *[1]byte :: r != base(buf) ==> elems(r) == old(elems(r))
